@@ -1242,8 +1242,18 @@ func ruleFirstBlockMatchesInitialState(c *Check, p *Prog) {
 		if pk == nil || pk.Pkg.Path() != rootPath+"/block" || fn.Parent() != nil || fn.Blocks == nil {
 			continue
 		}
-		if callsNamed(fn, func(n string) bool { return n == execM("InitChain") }) && callsNamed(fn, func(n string) bool { return n == storeM("GetState") }) {
+		if !callsNamed(fn, func(n string) bool { return n == storeM("GetState") }) {
+			continue
+		}
+		if callsNamed(fn, func(n string) bool { return n == execM("InitChain") }) {
 			loader = fn
+			continue
+		}
+		// the initialisation may sit in a helper of the loader
+		for _, cl := range staticCalleesOf(p, fn) {
+			if pk2 := fnPkg(cl); pk2 != nil && pk2.Pkg.Path() == rootPath+"/block" && cl.Blocks != nil && callsNamed(cl, func(n string) bool { return n == execM("InitChain") }) && loader == nil {
+				loader = fn
+			}
 		}
 	}
 	if loader == nil {
@@ -1258,12 +1268,9 @@ func ruleFirstBlockMatchesInitialState(c *Check, p *Prog) {
 		c.Unk(rule, fnShort(loader)+" ⟂ InitChain→SaveBlockData", fnName(loader), "", fmt.Sprintf("anchor lost: %d checked InitChain calls, %d SaveBlockData calls in the loader", len(initOK), len(saves)))
 		return
 	}
-	var okExits []*Node
-	for _, x := range g.Exits {
-		if g.ExitClass(x) != rcA && x.Ctx.Depth == 0 {
-			okExits = append(okExits, x)
-		}
-	}
+	// success returns; a return that hands on a helper's results stands for the helper's own
+	// non-error returns
+	okExits := g.Select(g.SuccessExits())
 	c.Decide(rule, fnShort(loader)+" ⟂ InitChain→SaveBlockData", fnName(loader), p.InstrPos(saves[0].In),
 		"every success return after InitChain follows the write of the first block built on the reported root",
 		"the loader can return the state built from this start's InitChain answer without writing the first block: a block stored by an earlier start (before the first block was committed) stays, the production step takes it over as the pending block and rejects it against the new state (appHash mismatch) on every attempt and after every restart", g,
